@@ -353,3 +353,22 @@ impl EbmlTag<RT> for RT {
         if let RT::M(_, v) = self { Some(v) } else { None }
     }
 }
+
+/// A runtime specification with masters nested eight deep whose ids have every byte length 1..8
+/// (and leaves with ids of every length), plus the globals the derive macro always adds.
+pub fn chain_refspec() -> RefSpec {
+    let masters: [u64; 8] = [0x91, 0x4091, 0x209191, 0x10919191, 0x0891919191, 0x049191919191, 0x02919191919191, 0x0191919191919191];
+    let leaves: [u64; 8] = [0xa1, 0x40a1, 0x20a1a1, 0x10a1a1a1, 0x08a1a1a1a1, 0x04a1a1a1a1a1, 0x02a1a1a1a1a1a1, 0x01a1a1a1a1a1a1a1];
+    let tys = [Ty::U, Ty::I, Ty::F, Ty::S, Ty::B, Ty::U, Ty::I, Ty::B];
+    let mut elems = Vec::new();
+    let mut path: Vec<PP> = Vec::new();
+    for i in 0..8 {
+        elems.push(ElemDef { name: format!("A{}", i + 1), id: masters[i], ty: Ty::Master, path: path.clone() });
+        path.push(PP::Id(masters[i]));
+        // the leaf of master i has an id of length 8-i: short ids deep down, long ids near the root
+        elems.push(ElemDef { name: format!("a{}", i + 1), id: leaves[7 - i], ty: tys[i], path: path.clone() });
+    }
+    elems.push(ElemDef { name: "Crc32".into(), id: ID_CRC, ty: Ty::B, path: vec![PP::Glob(Some(1), None)] });
+    elems.push(ElemDef { name: "Void".into(), id: ID_VOID, ty: Ty::B, path: vec![PP::Glob(None, None)] });
+    RefSpec { elems }
+}
